@@ -39,7 +39,7 @@ struct Limits : Profile {
     std::vector<std::string> required_probes() const override
     {
         return {"reserve-near-limit", "beyond-limit-refused", "far-write", "ref-65535", "refs-exhausted", "members-65535", "member-65536-refused", "order-over-limit-refused",
-                "fields-257-refused", "long-name-vdata", "long-name-sds", "rank-33-refused", "sds-bytes-over-limit", "open-table-full", "reopen", "canaries-checked"};
+                "fields-257-refused", "long-name-vdata", "long-name-sds", "rank-33-refused", "sds-bytes-over-limit", "open-table-full", "reopen", "canaries-checked", "append-near-limit", "recsize-with-predefined-field"};
     }
 
     Plan generate(Rng &rng, bool thorough, uint64_t) override
@@ -53,8 +53,8 @@ struct Limits : Profile {
         int n           = (int)r.range(8, thorough ? 40 : 30);
         static const int64_t lens[] = {63, 64, 65, 66, 127, 128, 129, 255, 256, 257, 1000, 70000};
         static const std::vector<int> w = {/*reserve*/ 14, /*farwrite*/ 6, /*small*/ 8, /*hlbig*/ 5, /*ref65535*/ 5, /*newrefs*/ 8, /*exhaust*/ 1, /*members*/ 4,
-                                           /*order*/ 6,    /*nfields*/ 5,  /*recsize*/ 4, /*name*/ 16, /*rank*/ 4,    /*sdbig*/ 6,    /*hopen*/ 2,   /*sdopen*/ 3, /*reopen*/ 5};
-        static const char *names[] = {"reserve", "farwrite", "small", "hlbig", "ref65535", "newrefs", "exhaust", "members", "order", "nfields", "recsize", "name", "rank", "sdbig", "hopen", "sdopen", "reopen"};
+                                           /*order*/ 6,    /*nfields*/ 5,  /*recsize*/ 4, /*name*/ 16, /*rank*/ 4,    /*sdbig*/ 6,    /*hopen*/ 2,   /*sdopen*/ 3, /*reopen*/ 5, /*appendfar*/ 6};
+        static const char *names[] = {"reserve", "farwrite", "small", "hlbig", "ref65535", "newrefs", "exhaust", "members", "order", "nfields", "recsize", "name", "rank", "sdbig", "hopen", "sdopen", "reopen", "appendfar"};
         for (int i = 0; i < n; i++) {
             int k = r.weighted(w);
             if (k == 6 && !thorough && !r.chance(0.3))
@@ -105,6 +105,10 @@ struct Limits : Profile {
                     break;
                 case 15:
                     p.ops.push_back(mkop(0, names[k], {r.range(-3, 6)}));
+                    break;
+                case 17: // first bring the end of the file near the limit, then append
+                    p.ops.push_back(mkop(0, "reserve", {0, r.range(-60000, -3000), 0}));
+                    p.ops.push_back(mkop(0, names[k], {}));
                     break;
                 default:
                     p.ops.push_back(mkop(0, names[k], {}));
@@ -391,6 +395,10 @@ struct Limits : Profile {
                     if (aid != FAIL)
                         ctx.fail("accepted-over-limit", "accepted-over-limit:Hstartwrite",
                                  strf("Hstartwrite of %lld bytes was accepted although the file already ends at %lld: the element would end beyond 2^31-1", (long long)len, (long long)end));
+                    // nothing of the refused element stays behind
+                    ctx.st.checks++;
+                    if (Hexist(s.big, 8400, ref) != FAIL)
+                        ctx.fail("leftover", "leftover:descriptor", strf("the refused element 8400/%d exists afterwards (Hexist succeeds, Hnumber counts it)", ref));
                 }
                 else if (aid != FAIL) {
                     if (o.arg(2) == 1 && len > 1) { // touch the last byte
@@ -429,6 +437,35 @@ struct Limits : Profile {
                         ctx.probe("beyond-limit-refused");
                     scan_big(s, "after a small element");
                     check_smalls(s, "a small element");
+                }
+            }
+            else if (k == "appendfar") {
+                // an element at the end of the file grows in place by appends: no append may carry it past 2^31-1
+                open_big(s);
+                int64_t end = big_end(s);
+                if (end < LIM - 200000)
+                    done = false; // only meaningful once reservations have brought the end near the limit
+                else {
+                    uint16 ref = (uint16)(100 + s.seq);
+                    int32  aid = Hstartaccess(s.big, 8420, ref, DFACC_WRITE | DFACC_APPENDABLE);
+                    std::vector<uint8_t> piece = data_block((uint64_t)s.seq, 3000);
+                    int64_t total = 0;
+                    for (int q = 0; q < 100 && aid != FAIL; q++) {
+                        int32 n = Hwrite(aid, (int32)piece.size(), piece.data());
+                        if (n == FAIL)
+                            break;
+                        total += n;
+                        if (end + total > LIM)
+                            ctx.fail("accepted-over-limit", "accepted-over-limit:Hwrite-append",
+                                     strf("appends carried an element that starts at %lld to %lld bytes: it ends beyond 2^31-1", (long long)end, (long long)total));
+                    }
+                    if (aid != FAIL && Hendaccess(aid) == FAIL)
+                        ctx.fail("unusable", "unusable:append-endaccess", strf("Hendaccess after appends near the limit failed: %s", herr().c_str()));
+                    if (total > 0 && Hlength(s.big, 8420, ref) != (int32)total)
+                        ctx.fail("wrapped", "wrapped:append-length", strf("%lld bytes were appended, the element reports %d", (long long)total, (int)Hlength(s.big, 8420, ref)));
+                    scan_big(s, "after appends near the limit");
+                    check_smalls(s, "appends near the limit");
+                    ctx.probe("append-near-limit");
                 }
             }
             else if (k == "hlbig") {
@@ -606,10 +643,13 @@ struct Limits : Profile {
                     }
                 }
                 else {
-                    // two fields whose sizes add up to about 65535
-                    int64_t total = 65535 + o.arg(0), a = 40000, b = total - a;
-                    bool    d     = VSfdefine(vs, "p", DFNT_UINT8, (int32)a) != FAIL && VSfdefine(vs, "q", DFNT_UINT8, (int32)b) != FAIL;
-                    intn    r     = d ? VSsetfields(vs, "p,q") : FAIL;
+                    // two fields whose sizes add up to about 65535; the second may be a predefined one (PX: 4 bytes)
+                    bool    px    = o.arg(0) == 3 || o.arg(0) == -3;
+                    int64_t total = px ? 65535 + (o.arg(0) > 0 ? 3 : -1) : 65535 + o.arg(0), a = px ? total - 4 : 40000, b = total - a;
+                    bool    d     = VSfdefine(vs, "p", DFNT_UINT8, (int32)a) != FAIL && (px || VSfdefine(vs, "q", DFNT_UINT8, (int32)b) != FAIL);
+                    intn    r     = d ? VSsetfields(vs, px ? "p,PX" : "p,q") : FAIL;
+                    if (px)
+                        ctx.probe("recsize-with-predefined-field");
                     if (total > 65535) {
                         if (r != FAIL)
                             ctx.fail("accepted-over-limit", "accepted-over-limit:record-size", strf("a record of %lld bytes was accepted; the record size of a Vdata header is a 16-bit field", (long long)total));
@@ -626,7 +666,7 @@ struct Limits : Profile {
                     // an accepted definition works: size reported, one record written and read back after re-attach
                     ctx.st.checks++;
                     std::vector<uint8_t> rec = data_block((uint64_t)s.seq, (size_t)recsize), got((size_t)recsize + 8, 0x5A);
-                    const char          *fl = k == "order" ? "f" : k == "recsize" ? "p,q" : NULL;
+                    const char          *fl = k == "order" ? "f" : k == "recsize" ? (o.arg(0) == -3 ? "p,PX" : "p,q") : NULL;
                     if (fl && VSsizeof(vs, (char *)fl) != (int32)recsize)
                         ctx.fail("wrapped", "wrapped:VSsizeof", strf("a record of %lld bytes reports size %d", (long long)recsize, (int)VSsizeof(vs, (char *)fl)));
                     if (VSwrite(vs, rec.data(), 1, FULL_INTERLACE) != 1)
@@ -854,7 +894,13 @@ struct Limits : Profile {
                                                                                sz[t], (long long)bytes, herr().c_str()));
                     SDendaccess(id);
                 }
-                else if (bytes + 65536 < LIM)
+                else {
+                    int32 nds = -1, nat = -1;
+                    ctx.st.checks++;
+                    if (SDfileinfo(bsd, &nds, &nat) == FAIL || nds != 0)
+                        ctx.fail("leftover", "leftover:dataset", strf("SDcreate of a %d x %d dataset (%lld bytes) was refused, SDfileinfo counts %d dataset(s) afterwards", (int)dims[0], (int)dims[1], (long long)bytes, (int)nds));
+                }
+                if (id == FAIL && bytes + 65536 < LIM)
                     ctx.fail("unusable", "unusable:SDcreate-big", strf("SDcreate refuses a %d x %d dataset of %d-byte values (%lld bytes): %s", (int)dims[0], (int)dims[1], sz[t], (long long)bytes, herr().c_str()));
                 if (SDend(bsd) == FAIL)
                     ctx.fail("unusable", "unusable:sdend-big", strf("SDend fails for a file with one %d x %d dataset of %d-byte values (%lld bytes, far corner %s): %s", (int)dims[0], (int)dims[1], sz[t],
